@@ -901,6 +901,19 @@ class Program:
         helpers = {id(h.node): h for h in self.all_functions() if eligible(h)}
         if not helpers:
             return
+        # a helper that loops and is called from several places stays a call (its body written out twice is no shape any rule was written for)
+        ncalls = {}
+        names = {h.node.name for h in helpers.values()}
+        for m_ in self.modules.values():
+            for c_ in ast.walk(m_.tree):
+                if isinstance(c_, ast.Call):
+                    nm = c_.func.id if isinstance(c_.func, ast.Name) else (c_.func.attr if isinstance(c_.func, ast.Attribute) else None)
+                    if nm in names:
+                        ncalls[nm] = ncalls.get(nm, 0) + 1
+        helpers = {k: h for k, h in helpers.items()
+                   if not (ncalls.get(h.node.name, 0) > 1 and any(isinstance(x, (ast.For, ast.While)) for x in ast.walk(h.node)))}
+        if not helpers:
+            return
         counter = [self.helpers_inlined]
 
         def expand(m, cls, g, call, kind, target_stmt):
